@@ -993,7 +993,7 @@ def run(ctx):
     rng = ctx.rng
     quick = ctx.tier == 'quick'
     n_unit = 150 if quick else 1500
-    n_base = 10 if quick else 100
+    n_base = 10 if quick else 80
     with warnings.catch_warnings():
         warnings.simplefilter('ignore')
         with pipeline.workdir(prefix='ctmverif_c07_') as scratch:
